@@ -289,6 +289,35 @@ theorem C14_known_mixed_nested_operator_breaks :
            .endTok 1] false := by
   refine ⟨by decide +kernel, by decide +kernel, by decide +kernel⟩
 
+/-- Known finding `roundtrip-empty-first-element`, on the models: `a={ { {} } x }` parses to an array
+whose first element is an empty array (`a, Array{5}, Array{3}, End, x, End`); `writeTape` (space × 2)
+writes that element as `{ }` directly behind the opening brace, where the parser — the kind of the
+container not being known yet — drops it as a ghost object: the re-parsed tape has lost the element.
+An ambiguity of the text format itself: an empty container in first position can only be written as
+`{ {} }`. -/
+theorem C14_known_empty_first_element_breaks :
+    TextTape.parse [97, 61, 123, 32, 123, 32, 123, 125, 32, 125, 32, 120, 32, 125] =
+      .ok [.unquoted ⟨14, [97]⟩, .array 5 false, .array 3 false, .endTok 2, .unquoted ⟨3, [120]⟩, .endTok 1] false ∧
+    (writeTape [.unquoted [97], .array 5 false, .array 3 false, .end 2, .unquoted [120], .end 1]
+        (State.init 32 2)).toOption.map (·.out) =
+      some [97, 61, 123, 10, 32, 32, 123, 32, 125, 10, 32, 32, 120, 10, 125] ∧
+    TextTape.parse [97, 61, 123, 10, 32, 32, 123, 32, 125, 10, 32, 32, 120, 10, 125] =
+      .ok [.unquoted ⟨15, [97]⟩, .array 3 false, .unquoted ⟨3, [120]⟩, .endTok 1] false := by
+  refine ⟨by decide +kernel, by decide +kernel, by decide +kernel⟩
+
+/-- Known finding `roundtrip-header-empty-body`, on the models: `a=rgb { {} }` parses to
+`a, Header(rgb), Array{3}, End`; `writeTape` writes `a=rgb { }`, which re-parses as the plain scalar
+`rgb` followed by a ghost object: header and container are gone. -/
+theorem C14_known_header_empty_body_breaks :
+    TextTape.parse [97, 61, 114, 103, 98, 32, 123, 32, 123, 125, 32, 125] =
+      .ok [.unquoted ⟨12, [97]⟩, .header ⟨10, [114, 103, 98]⟩, .array 3 false, .endTok 2] false ∧
+    (writeTape [.unquoted [97], .header [114, 103, 98], .array 3 false, .end 2]
+        (State.init 32 2)).toOption.map (·.out) =
+      some [97, 61, 114, 103, 98, 32, 123, 32, 125] ∧
+    TextTape.parse [97, 61, 114, 103, 98, 32, 123, 32, 125] =
+      .ok [.unquoted ⟨9, [97]⟩, .unquoted ⟨7, [114, 103, 98]⟩] false := by
+  refine ⟨by decide +kernel, by decide +kernel, by decide +kernel⟩
+
 /-- **C14, the positive theorem over the text-tape slice's one document type.**  For EVERY document
 `d : JFields` under every valid layout (`JValidF d gt`: arbitrary blanks / comments in every gap,
 optional `=` before `{`, ghost `{}` in key position and at the start of containers, quoted and
@@ -315,7 +344,9 @@ Exclusions (`JPlainF`, `hb'`), all witnessed on the real code:
   3. an unquoted first key starting with the BOM bytes (`hb'`) — known finding `roundtrip-bom-key`;
   4. the ghost shapes of the format itself: an array whose first element, or a header whose body, has
      empty content (only writable as `{ {} }`: `a={ { {} } x }`, `a=rgb { {} }`) — written as `{ }` in
-     first position it is dropped on re-reading as a ghost object. -/
+     first position it is dropped on re-reading as a ghost object — known findings
+     `roundtrip-empty-first-element` / `roundtrip-header-empty-body`
+     (`C14_known_empty_first_element_breaks`, `C14_known_header_empty_body_breaks`). -/
 theorem C14_nested_roundtrip (d : TextTape.JFields) (gt : Bytes) (c : UInt8) (f : Nat)
     (hc : TextTape.isBlank c = true) (hgt : TextTape.Blank gt) (hv : TextTape.JValidF d gt)
     (hplain : JPlainF d) (hb : TextTape.hasBom (TextTape.jrenderF d ++ gt) = false)
